@@ -16,3 +16,6 @@ def check(run):
              "never from the lists that only hold what registration records name: specificity order, next's base filter, applicability", floor=9)
     crules.order_rules(run, r3, r3, ast)
     crules.applicable_rules(run, r3, ast)
+    r4 = "C08-deferred"
+    run.rule(r4, "deferred ids: a base-id list shared by several registration records of a class is resolved once (its own flag is tested), however many records name it", floor=3)
+    crules.deferred_rules(run, r4, r4, r4, ast)
